@@ -6,6 +6,8 @@ if _c is not None and 'VtOrd0' in getattr(_c, 'import_fails', ()):
     raise ImportError('vt_c20: import of VtOrd0 made to fail')
 if _c is not None and 'VtOrd0' in getattr(_c, 'import_other', ()):
     raise RuntimeError('vt_c20: module of VtOrd0 made to raise while importing')
+# a module that says `deprecated = True` needs `load --deprecated`
+deprecated = bool(_c is not None and 'VtOrd0' in getattr(_c, 'deprecated', ()))
 from . import plugin
 from importlib import reload
 reload(plugin)
